@@ -21,6 +21,7 @@ import (
 	tp "tglib/ngapTestpacket"
 
 	"vh/fw"
+	"vh/gen/nasdesc"
 	"vh/ref/sec"
 )
 
@@ -33,7 +34,7 @@ func init() {
 		ID:    "C20",
 		Level: "exploration",
 		Rule: "case = G goroutines (2, 4, 16, 64 by index), goroutine g owns UE context g (own keys, algorithm pair cycling through {NIA1,NIA2}x{NEA0,NEA1,NEA2}) and executes a seeded script of 200 (quick) / 1500 (thorough) operations drawn from " +
-			"NGAP build+encode, NGAP decode, plain NAS encode/decode, NAS protect (EncodeNasPduWithSecurity), NAS unprotect (NASDecode), key derivation (DeriveRESstarAndSetKey), NASEncrypt, NASMacCalculate, Milenage F1/F2345; " +
+			"NGAP build+encode, NGAP decode, plain NAS encode/decode, NAS protect (EncodeNasPduWithSecurity), NAS unprotect (NASDecode), key derivation (DeriveRESstarAndSetKey), NASEncrypt, NASMacCalculate, Milenage F1/F2345, and - generated inside the goroutine - any of the 77 NGAP message types (encode, decode, re-encode), the 25 transfer container types through aper.MarshalWithParams/UnmarshalWithParams, any of the 45 NAS message types with a random optional-IE subset, the 64 builders that do not write the announced PLMN, the identity / conversion helpers (EncodeSuci, CreateUE, capability, PLMN, S-NSSAI, AMF id, transport address, PCO, DNN) and the two hand-written extractors on reference-built messages; " +
 			"GOMAXPROCS alternates between 2 and 16, Gosched calls are sprinkled by the script. The scripts are first run one goroutine at a time, then concurrently. distinct = hash(G, scripts); non-trivial = overlapping operations were observed",
 		Assumptions: []string{
 			"NG Setup (which writes the announced PLMN) is issued once before the goroutines start, as in the emulator",
@@ -55,17 +56,21 @@ func init() {
 }
 
 type c20Actor struct {
-	ue      *tglib.RanUeContext
-	dlUE    *tglib.RanUeContext
-	r       *rand.Rand
-	k, opc  []byte
-	amf     int64
-	dlCount uint32
+	ue       *tglib.RanUeContext
+	dlUE     *tglib.RanUeContext
+	r        *rand.Rand
+	k, opc   []byte
+	amf      int64
+	dlCount  uint32
+	descs    []nasdesc.Msg
+	builders []int
 }
 
 var c20RefMu sync.Mutex
 
-var c20OpNames = []string{"ngap-encode", "ngap-decode", "nas-plain", "nas-protect", "nas-unprotect", "key-derivation", "nas-encrypt", "nas-mac", "milenage"}
+var c20OpNames = append([]string{"ngap-encode", "ngap-decode", "nas-plain", "nas-protect", "nas-unprotect", "key-derivation", "nas-encrypt", "nas-mac", "milenage"}, c20ExtNames...)
+
+const c20BaseOps = 9
 
 // c20Op executes operation kind for the actor and returns a digest of everything it produced.
 func c20Op(a *c20Actor, kind int) [32]byte {
@@ -146,6 +151,8 @@ func c20Op(a *c20Actor, kind int) [32]byte {
 		res, ck, ik, ak, aks := make([]byte, 8), make([]byte, 16), make([]byte, 16), make([]byte, 6), make([]byte, 6)
 		milenage.F2345(a.opc, a.k, rnd, res, ck, ik, ak, aks)
 		h.Write(bytes.Join([][]byte{macA, macS, res, ck, ik, ak, aks}, nil))
+	default:
+		c20OpExt(a, kind-c20BaseOps, h)
 	}
 	var out [32]byte
 	copy(out[:], h.Sum(nil))
@@ -162,6 +169,7 @@ func c20NewActor(seed int64, g int) *c20Actor {
 	copy(a.ue.KnasInt[:], rbytes(r, 16))
 	a.dlUE = tglib.NewRanUeContext(a.ue.Supi, int64(g+1), cAlg, iAlg)
 	a.dlUE.KnasEnc, a.dlUE.KnasInt = a.ue.KnasEnc, a.ue.KnasInt
+	a.descs, a.builders = c20Descs(), c20Builders()
 	return a
 }
 
@@ -274,7 +282,7 @@ func runC20(c *fw.Case) (o fw.Outcome) {
 		}
 	}
 	o.Count("overlapping_operation_pairs_observed", overlaps)
-	o.Max("distinct_operation_kind_pairs_overlapping_of_45", int64(len(pairs)))
+	o.Max(fmt.Sprintf("distinct_operation_kind_pairs_overlapping_of_%d", len(c20OpNames)*(len(c20OpNames)+1)/2), int64(len(pairs)))
 	o.Nontrivial = overlaps > 0
 	// determinism oracle
 	for g := 0; g < G; g++ {
